@@ -18,6 +18,8 @@ type Ctx struct {
 	Tier string
 
 	guardDepth int // recursion guard of nameGuard
+
+	anchorsSeen map[string]bool
 	// VerifDir is /verif (fixtures, mutants).
 	VerifDir string
 
